@@ -26,7 +26,7 @@ SweepOk(e) ==
     ELSE LET bad == {i \in 0..65535 : \E k \in 1..w :
                          e.px[w * i + k] # Pixel(e.ys[k], SwCb(i, k), SwCr(i, k))}
          IN  IF bad = {} THEN TRUE ELSE
-                LET i == MinOf(bad)
+                LET i == CHOOSE j \in bad : TRUE      \* any one of them (a minimum over a large set is quadratic in TLC)
                     k == MinOf({k \in 1..w : e.px[w * i + k] # Pixel(e.ys[k], SwCb(i, k), SwCr(i, k))})
                 IN Diag("IMPL", "colour",
                         [y |-> e.ys[k], cb |-> SwCb(i, k), cr |-> SwCr(i, k), pixel |-> k, width |-> w, got |-> e.px[w * i + k],
